@@ -198,12 +198,15 @@ pub struct Model {
     pub cfg_known: bool,
     pub op_index: u32,
     pub store_borrowed: Option<ObjId>,
+    pub store_borrow_shared: bool,
     pub buf_model: std::collections::BTreeSet<ObjId>,
     pub buf_exact: bool,
     pub buf_pending: Vec<ObjId>,
     pub dropped_this_pass: Vec<ObjId>,
     pub trace_seen_in_call: bool,
     pub threshold_changed: bool,
+    pub buf_at_collection_start: Vec<ObjId>, // members of the buffer (hook walk) when the running collection started
+    pub touched_this_call: Vec<ObjId>, // objects the running collection / destruction chain has traced, finalized or dropped
     pub tls_roots: Vec<ObjId>, // Ccs parked in a user thread-local (C19)
     pub teardown: bool,
     pub nontrace_since_pass: bool,
@@ -350,12 +353,15 @@ impl World {
                 cfg_known: false,
                 op_index: 0,
                 store_borrowed: None,
+                store_borrow_shared: false,
                 buf_model: Default::default(),
                 buf_exact: exact_buf,
                 buf_pending: Vec::new(),
                 dropped_this_pass: Vec::new(),
                 trace_seen_in_call: false,
                 threshold_changed: false,
+                buf_at_collection_start: Vec::new(),
+                touched_this_call: Vec::new(),
                 tls_roots: Vec::new(),
                 teardown: false,
                 nontrace_since_pass: false,
